@@ -101,7 +101,7 @@ example : ConvFrom 2 0 [-10, -5, 6, 6, 6] ∧ HasReturnFrom 2 0 [-10, -5, 6, 6, 
 
 /-! ## Tie by translation
 
-`Generated/Code.lean` holds the transcription of the *current* source of `CalculateRevenue` and `CalculateTotalRevenue`
+`Generated/Code.lean` holds the transcription of the *current* source of `CalculateRevenue`, `CalculateCarbonRevenue` and of two statement runs of `Economics.Calculate`
 (`tools/py2lean.py`).  For every lifetime, every construction period ≥ 1 (the parameter's minimum; with 0 Python's `cum[-1]` would wrap)
 and all series: the first result is the list model, the second is its running sum. -/
 
@@ -115,35 +115,46 @@ theorem code_revenue_year (L cy : Nat) (hcy : 1 ≤ cy) (E P : List Rat) (j : Na
       if cy ≤ j ∧ j < cy + L then yearRevenue E P (j - cy) else 0 := by
   rw [code_revenue_eq L cy hcy E P]; exact revenueSeries_getD L cy E P j
 
-theorem code_CalculateTotalRevenue_is_model (L cy : Nat) (hcy : 1 ≤ cy) (capex opex : Rat) (rev : List Rat) :
-    Code.CalculateTotalRevenue (L : Int) (cy : Int) capex opex rev =
+/-- **The cash flow `Economics.Calculate` reports.**  The module no longer calls `CalculateTotalRevenue`; it assembles the project cash flow in
+place (`ProjectCAPEXPerConstructionYear = …`, the construction-year loop, the O&M loop, the cumulative loop).  Those statements, transcribed
+from the current source (`Code.CashFlowFragment`), give — for every lifetime, every construction period ≥ 1, all costs and every revenue
+series of the full length — the model's series and its running sum. -/
+theorem code_cashflow_fragment_is_model (L cy : Nat) (hcy : 1 ≤ cy) (capex opex : Rat) (rev cum0 : List Rat)
+    (hr : rev.length = L + cy) (hc : cum0.length = L + cy) :
+    Code.CashFlowFragment rev cum0 capex opex (cy : Int) (L : Int) =
       (totalSeries L cy capex opex rev, cumsum (totalSeries L cy capex opex rev)) :=
-  code_total_revenue_eq L cy hcy capex opex rev
+  code_cashflow_fragment_eq L cy hcy capex opex rev cum0 hr hc
 
-/-- the translated `CalculateTotalRevenue` yields exactly the model's project cash flow `assemble` whenever it is handed the revenue
-the model ascribes to each operating year -/
-theorem code_cashflow_is_assemble (s : CashIn) (hcy : 1 ≤ s.cy) (rev : List Rat)
+/-- … which is the model's `assemble` when the revenue series carries, in each operating year, the revenue of the products the end-use sells -/
+theorem code_fragment_is_assemble (s : CashIn) (hcy : 1 ≤ s.cy) (rev cum0 : List Rat)
+    (hr : rev.length = s.L + s.cy) (hc : cum0.length = s.L + s.cy)
     (hrev : ∀ i, i < s.L → rev.getD (s.cy + i) 0 = productRevenue s i + (if s.carbonOn then carbonRevenue s i else 0)) :
-    (Code.CalculateTotalRevenue (s.L : Int) (s.cy : Int) s.ccap s.coam rev).1 = assemble s := by
-  rw [code_total_revenue_eq s.L s.cy hcy]
-  simp only [totalSeries, assemble]
-  congr 1
-  apply List.map_congr_left
-  intro i hi
-  simp only [operatingCash, hrev i (List.mem_range.mp hi)]
+    Code.CashFlowFragment rev cum0 s.ccap s.coam (s.cy : Int) (s.L : Int) = (assemble s, cumsum (assemble s)) := by
+  rw [code_cashflow_fragment_eq s.L s.cy hcy s.ccap s.coam rev cum0 hr hc]
+  have h : totalSeries s.L s.cy s.ccap s.coam rev = assemble s := by
+    simp only [totalSeries, assemble]
+    congr 1
+    apply List.map_congr_left
+    intro i hi
+    simp only [operatingCash, hrev i (List.mem_range.mp hi)]
+  rw [h]
 
-/-- and its cumulative series is the running sum of that cash flow -/
-theorem code_cumulative_is_running_sum (L cy : Nat) (hcy : 1 ≤ cy) (capex opex : Rat) (rev : List Rat) :
-    (Code.CalculateTotalRevenue (L : Int) (cy : Int) capex opex rev).2 =
-      cumsum (Code.CalculateTotalRevenue (L : Int) (cy : Int) capex opex rev).1 := by
-  rw [code_total_revenue_eq L cy hcy]
+/-- the reported payback follows from the reported cash flow: fragment ∘ fragment, as the source has them -/
+example : Code.PaybackFragment (Code.CashFlowFragment [0, 0, 6, 6, 6, 6] [0, 0, 0, 0, 0, 0] 10 1 2 4).2 = 4 := by decide +kernel
+
+/-- and the cumulative series the module reports is the running sum of the cash flow it reports -/
+theorem code_cumulative_is_running_sum (L cy : Nat) (hcy : 1 ≤ cy) (capex opex : Rat) (rev cum0 : List Rat)
+    (hr : rev.length = L + cy) (hc : cum0.length = L + cy) :
+    (Code.CashFlowFragment rev cum0 capex opex (cy : Int) (L : Int)).2 =
+      cumsum (Code.CashFlowFragment rev cum0 capex opex (cy : Int) (L : Int)).1 := by
+  rw [code_cashflow_fragment_eq L cy hcy capex opex rev cum0 hr hc]
 
 /-- the payback statements of `Economics.Calculate` (the `for i in range(1, len(cum))` scan), as they stand in the source, are the model
 `paybackFixed` — for every cumulative series; with `payback_within_turn_year` this puts the reported payback inside the year in which
 the cumulative cash flow turns positive, for the code as written -/
 theorem code_payback_is_model (cum : List Rat) : Code.PaybackFragment cum = paybackFixed cum := code_payback_eq cum
 
-example : Code.PaybackFragment (Code.CalculateTotalRevenue 4 1 10 0 [0, 4, 4, 4, 4]).2 = 3 + 1/2 := by decide +kernel
+example : Code.PaybackFragment (Code.CashFlowFragment [0, 4, 4, 4, 4] [0, 0, 0, 0, 0] 10 0 1 4).2 = 3 + 1/2 := by decide +kernel
 /-- a cumulative of exactly zero at a year end counts as "not yet positive": the crossing is found in the next year -/
 example : Code.PaybackFragment [-40, -30, -20, -10, 0, 10, 20] = 5 := by decide +kernel
 
@@ -177,7 +188,7 @@ theorem code_carbon_year (s : CashIn) (hcy : 1 ≤ s.cy) (eu E H : Int)
 example : Code.CalculateCarbonRevenue 2 1 [1/10, 1/5] 2 3 [1000000, 1000000] [500000, 500000] 7 1 2 =
     ([0, 7/20, 7/10], [0, 7/20, 21/20], [0, 3500000, 3500000], 7000000) := by decide +kernel
 
-example : Code.CalculateTotalRevenue 3 2 10 1 [0, 0, 4, 4, 4] = ([-5, -5, 3, 3, 3], [-5, -10, -7, -4, -1]) := by decide +kernel
+example : Code.CashFlowFragment [0, 0, 4, 4, 4] [0, 0, 0, 0, 0] 10 1 2 3 = ([-5, -5, 3, 3, 3], [-5, -10, -7, -4, -1]) := by decide +kernel
 example : Code.CalculateRevenue 2 1 [1000000, 2000000] [1/2, 1/4] = ([0, 1/2, 1/2], [0, 1/2, 1]) := by decide +kernel
 
 end GeoVerif.C04
